@@ -212,6 +212,8 @@ def decay_stream(rng, cases, checker, tag, streams, viol, samples, what, shard=2
                 bad_prop.append((k, f"stable nuclides listed in cumulative decays: {stable_listed[:3]}"))
         if "zero_out" in r:
             for n, v in r["zero_out"].items():
+                if n in r["n0"] and r["n0"][n] is None:
+                    continue      # the stored amount is not a rational (SymPy expression): no exact reference here
                 v0 = float(Fraction_of(r["n0"].get(n))) if n in r["n0"] and r["n0"][n] else 0.0
                 if abs(float.fromhex(v) - v0) > 1e-11 * max(sum(float(Fraction_of(x)) for x in r["n0"].values() if x), 1e-300):
                     bad_prop.append((k, f"decay for zero time changed {n}: {float.fromhex(v)!r} vs {v0!r}"))
